@@ -295,9 +295,11 @@ def live_case(acc, m, op, split):
     vs = [ref_msg("D", "CLI", "SRV", 2 + i, [(11, f"v{i}"), (58, "payload")]) for i in range(6)]
     ext = claimed_extent(m)
     case = {"malformed": m, "op": op, "split": split}
-    if ext > len(m) + sum(len(v) for v in vs[:4]):
-        acc.exclude("live: claimed extent covers most follow-up frames")
-        return
+    # a frame may swallow what it claims by its BodyLength - but not without bound: "can never block the frames that follow it"
+    # rules out waiting for a claimed megabyte. At most the first three follow-up frames are excused.
+    if ext > len(m) + sum(len(v) for v in vs[:3]):
+        ext = len(m) + sum(len(v) for v in vs[:3])
+        acc.klass("live/claimed-extent-capped")
     w, s, link = acceptor_world()
     try:
         r = link.readers["s"]
@@ -448,6 +450,13 @@ def live(acc, seed, stride):
                 continue
             for split in ("one-read", "separate-reads", "tail1", "tail5"):
                 live_case(acc, g, op, split)
+    # garbage at scale: a frame start that never completes, stuffed with hundreds / thousands of embedded frame-start markers
+    # (more decode passes than a single read's bytes could need), arriving in 4096-byte reads, followed by valid traffic
+    for nmark in (300, 1500, 4000):
+        for body in (b"8=FIX.", b"8=FIX.4.4\x019=5\x01", b"8=FIX.4.4\x01"):
+            g = b"8=FIX.4.4\x019=30000\x0135=D\x0158=" + body * nmark
+            live_case(acc, g, f"many-markers-{nmark}", "one-read")
+            live_case(acc, g, f"many-markers-{nmark}", "separate-reads")
     f = frames[6]
     for pos in range(0, len(f), max(1, stride // 2)):
         for b in (0x00, 0x01, 0x3D, 0x41, 0x39):
